@@ -502,3 +502,51 @@ Qed.
 Theorem majority_rejects : forall fs nz ny nx (a : arr4 Z),
   check_factors_base fs = false -> majority_model fs nz ny nx a = Crash NotImplementedError.
 Proof. intros. unfold majority_model. rewrite H. reflexivity. Qed.
+
+(* ---- the executable oracle majority_ref computes the specified statistic ------ *)
+
+Definition at_least (b : list Z) (v w : Z) : Prop :=
+  (occ w b < occ v b) \/ (occ w b = occ v b /\ (v <= w)%Z).
+
+Lemma better_spec : forall b w v, better b w v = true <-> ~ at_least b v w.
+Proof.
+  intros b w v. unfold better, at_least. rewrite orb_true_iff, andb_true_iff.
+  rewrite Nat.ltb_lt, Nat.eqb_eq, Z.ltb_lt. lia.
+Qed.
+
+Lemma majority_ref_fold : forall b t best,
+  let r := fold_left (fun best w => if better b w best then w else best) t best in
+  (r = best \/ In r t) /\ at_least b r best /\ forall w, In w t -> at_least b r w.
+Proof.
+  intros b t. induction t as [|x t IH]; intros best; cbn [fold_left].
+  - split. left; reflexivity. split. unfold at_least. right. split; [reflexivity | lia]. intros w [].
+  - destruct (better b x best) eqn:E.
+    + apply better_spec in E. destruct (IH x) as (H1 & H2 & H3).
+      set (r := fold_left _ t x) in *. split; [|split].
+      * destruct H1 as [-> | H1]. right; left; reflexivity. right; right; exact H1.
+      * unfold at_least in *. lia.
+      * intros w [<- | Hw]. exact H2. apply H3. exact Hw.
+    + assert (E' : at_least b best x).
+      { destruct (better b x best) eqn:E2. discriminate.
+        unfold better in E2. unfold at_least.
+        apply orb_false_iff in E2. destruct E2 as [E2 E3]. apply Nat.ltb_ge in E2.
+        apply andb_false_iff in E3. destruct E3 as [E3 | E3].
+        - apply Nat.eqb_neq in E3. lia.
+        - apply Z.ltb_ge in E3. lia. }
+      destruct (IH best) as (H1 & H2 & H3).
+      set (r := fold_left _ t best) in *. split; [|split].
+      * destruct H1 as [-> | H1]. left; reflexivity. right; right; exact H1.
+      * exact H2.
+      * intros w [<- | Hw]. unfold at_least in *. lia. apply H3. exact Hw.
+Qed.
+
+Theorem majority_ref_spec : forall b, b <> [] ->
+  exists v, majority_ref b = Some v /\ is_majority b v.
+Proof.
+  intros b Hb. destruct b as [|h t]. congruence.
+  unfold majority_ref. eexists. split. reflexivity.
+  destruct (majority_ref_fold (h :: t) t h) as (H1 & H2 & H3).
+  set (r := fold_left _ t h) in *. split.
+  - destruct H1 as [-> | H1]. left; reflexivity. right; exact H1.
+  - intros w [<- | Hw]. exact H2. apply H3. exact Hw.
+Qed.
